@@ -17,7 +17,7 @@ from symx.core import AND, IFF, NOT, OR
 PROPERTY = "C13"
 STUBS = ["operation codes are symbolic integers concretised by forking (every history of length k is a path)",
          "numeric arguments are fixed valid values so that refusals are caused by the mode alone",
-         "Waveform.modulation_buffers stubbed (only timing values depend on it)"]
+         "Waveform.modulation_buffers replaced by the constant (rise_time//2, rise_time//2): only timing values depend on it"]
 FLOAT_MODE = "no symbolic floats"
 BOUNDS = {"quick": dict(history_length=3, devices=["virt (physical-like, EOM, DMM, SLM)", "MockDevice (reusable, XY)"], alphabet=24),
           "thorough": dict(history_length=4, devices=["virt", "MockDevice", "DigitalAnalogDevice"], alphabet=24)}
@@ -121,7 +121,8 @@ class Model:
             if self.slm:
                 return False
             if self.measured:
-                return None  # see DESIGN F10
+                # in Ising mode the mask declares a DMM channel (and may add a pulse to it): a timeline change
+                return False if self.in_ising else None
             if self.in_ising and not d["reusable"] and "dmm_0" in self.used:
                 return False
             return True
@@ -305,7 +306,7 @@ def h_history(shape):
     first = shape.get("first")
 
     def h(inp):
-        stubs.bind(inp)
+        stubs.bind(inp, fixed=True)  # timing is irrelevant for the typestate: constant fall times keep timelines concrete
         seq = l2.new_seq(dev)
         m = Model(dev)
         st = {}
@@ -330,11 +331,14 @@ def h_history(shape):
             if pred is not None:
                 obs.append(("typestate:%s" % op, ok == pred))
                 inp.publish("measured_then_variable@typestate:%s" % op, bool(m.measured and op in ("VAR", "VAR_EOM") and not m.param))
+                inp.publish("slm_mask_after_measurement@typestate:%s" % op, bool(op == "SLM" and m.measured and m.in_ising and not m.param))
                 globs = [v for v in m.names.values() if v["kind"] == "glob"]
                 inp.publish("slm_with_an_empty_and_a_used_global_channel@typestate:%s" % op, bool(
                     op == "SLM" and m.in_ising and any(v.get("pulse") for v in globs) and any(not v.get("pulse") for v in globs)))
             if m.measured and op in ("VAR", "VAR_EOM") and ok:
                 return obs  # finding F11: the model stops tracking here
+            if m.measured and op == "SLM" and ok:
+                return obs  # finding F10: the model stops tracking here
             if ok:
                 m.apply(op)
             elif pred is None:
